@@ -1202,6 +1202,48 @@ def rule_r13(prog, res):
                         v, sorted(hit)))
 
 
+# ------------------------------------------------------------------ R15
+def rule_r15(prog, res):
+    res.rule('R15', 'flat documents: a key counts once per value it carries, '
+             'whatever the kind of the member')
+    f = prog.cls(SIMPLE).methods.get('simple_dict_to_object')
+    if f is None:
+        raise AnalysisError('SimpleDictDocument.simple_dict_to_object',
+                            'not found')
+    incs = [a for a in walk_no_defs(f.node) if isinstance(a, ast.AugAssign)
+            and isinstance(a.target, ast.Subscript) and
+            unparse(a.target.slice) == 'member.path[-1]']
+    res.floor('R15', 'leaf member counter updates', len(incs), 1)
+    for a in incs:
+        where = '%s:%d' % (f.module.relpath, a.lineno)
+        ok = isinstance(a.op, ast.Add) and unparse(a.value) == 'len(value)'
+        res.ob('R15', where, 'leaf counter += %s' % unparse(a.value),
+               'ok' if ok else 'VIOLATED')
+        if not ok:
+            res.finding('R15', 'simple_dict_to_object|leaf-counter|%s' %
+                        unparse(a.value), where, 'the occurrence counter of a '
+                        'leaf member grows by %s, not by the number of values '
+                        'the key carries: n=5&n=6 counts once for a '
+                        'max_occurs=1 member, passes the frequency check and '
+                        'the extra value is silently dropped' %
+                        unparse(a.value))
+        loop = a
+        while not isinstance(loop, (ast.For, ast.FunctionDef)):
+            loop = loop._parent
+        atoms = guardspec.atoms_at(a, loop)
+        kind = [(t, p_) for t, p_ in atoms if 'max_occurs' in t or
+                'member.type' in t or 'member_attrs' in t]
+        res.ob('R15', where, 'leaf counter update runs under %s' % (
+            ['%s%s' % ('' if p_ else 'not ', t) for t, p_ in atoms]),
+            'VIOLATED' if kind else 'ok')
+        for t, p_ in kind:
+            res.finding('R15', 'simple_dict_to_object|leaf-counter|kind-guard',
+                        where, 'the leaf counter update depends on the kind '
+                        'of the member ("%s%s"): members of the other kind '
+                        'are not counted per value' % ('' if p_ else 'not ',
+                                                       t))
+
+
 def run(prog, res, tier):
     res.run_rule(rule_r1, prog, res)
     res.run_rule(rule_r2, prog, res)
@@ -1217,6 +1259,7 @@ def run(prog, res, tier):
     res.run_rule(rule_r12, prog, res)
     res.run_rule(rule_r13, prog, res)
     res.run_rule(rule_r14, prog, res)
+    res.run_rule(rule_r15, prog, res)
 
 
 _X = 'spyne/protocol/xml.py'
@@ -1230,6 +1273,12 @@ _I = 'spyne/protocol/_inbase.py'
 _SI = 'spyne/protocol/dictdoc/simple.py'
 
 MUTANTS = [
+    Mutant('scalar-counts-once-per-key', 'R15', 'fire',
+           'spyne/protocol/dictdoc/simple.py',
+           in_func('SimpleDictDocument.simple_dict_to_object',
+                   "frequencies[cfreq_key][member.path[-1]] += len(value)",
+                   "frequencies[cfreq_key][member.path[-1]] += 1"),
+           'leaf-counter'),
     Mutant('counter-key-by-position', 'R13', 'fire',
            'spyne/protocol/dictdoc/simple.py',
            in_func('SimpleDictDocument.simple_dict_to_object',
